@@ -97,41 +97,43 @@ def _find_instructions(
     matches: List[List[Instruction]],
     covered: Set[Instruction],
 ) -> bool:
-    if current_instruction in visited:
-        return False
-
-    visited.add(current_instruction)
-
-    reaches = False
-
-    if _is_match(current_instruction, regex):
-        match: List[Instruction] = []
-        current = current_instruction
-        for _ in range(0, len(regex) - 1):
-
-            if not current:
-                break
-            match.append(current)
-
-            if len(current.next) != 1:
-                print(f"Regex cannot work on branching instructions {current_instruction}")
-                return False
-            current = current.next[0]
-
-        match.append(current)
-        matches.append(match)
-        reaches = True
-
-    for next_ins in current_instruction.next:
-
-        if next_ins in covered:
+    # First find all the instructions reachable from current_instruction and the matches among them
+    reachable: List[Instruction] = []
+    match_starts: List[Instruction] = []
+    worklist = [current_instruction]
+    while worklist:
+        ins = worklist.pop()
+        if ins in visited:
             continue
+        visited.add(ins)
+        reachable.append(ins)
 
-        if _find_instructions(next_ins, regex, visited, matches, covered):
-            covered.add(current_instruction)
-            reaches = True
+        if _is_match(ins, regex):
+            match: List[Instruction] = []
+            current = ins
+            for _ in range(0, len(regex) - 1):
+                match.append(current)
+                current = current.next[0]
+            match.append(current)
+            matches.append(match)
+            match_starts.append(ins)
 
-    return reaches
+        # reversed: instructions are visited in the same order as a recursive depth first search
+        for next_ins in reversed(ins.next):
+            worklist.append(next_ins)
+
+    # Then walk backwards from the matches: an instruction is covered if one of its next instructions
+    # is the start of a match or is itself covered.
+    reachable_set = set(reachable)
+    worklist = list(match_starts)
+    while worklist:
+        ins = worklist.pop()
+        for prev_ins in ins.prev:
+            if prev_ins in reachable_set and prev_ins not in covered:
+                covered.add(prev_ins)
+                worklist.append(prev_ins)
+
+    return len(match_starts) != 0
 
 
 def match_regex(contract: Teal, regex: Regex) -> Tuple[List[List[Instruction]], Set[Instruction]]:
